@@ -35,6 +35,7 @@ const (
 	ExitHErr       = "herr"       // handler / controller method reports an error
 	ExitHPanic     = "hpanic"     // handler / controller method panics
 	ExitCreateFail = "createfail" // spy provider fails CreateScope
+	ExitInitFail   = "initfail"   // the real CreateScope fails: a scope initializer of the provider fails for this request
 	ExitClosed     = "closed"     // the real provider was closed before the request
 	ExitAbort      = "abort"      // real server: the client goes away while the handler runs
 )
